@@ -114,6 +114,13 @@ module Ringasis = struct
          if which = 1 && la <= Zar.to_int mul_simple_chunk_len && la >= lb then begin
            let (r2, c2) = signed_mul_chunk_gen (wz ()) cw s aw bw in
            if "ok " ^ hx (value (wz ()) r2) ^ " " ^ hx c2 = t then Some t else Some "gen-rows-differ"
+         end else
+         (* round 5: the BODIES regenerated from mul/{helpers,simple,karatsuba,toom_3,mod}.rs (coq/gen/MulBodiesGen.v:
+            dispatch, chunk loop, Karatsuba step, generated fuel knot) must say the same *)
+         if la + lb <= 1600 then begin
+           match kmul_bodies_gen (wz ()) d21 (Zar.of_int which) cw s aw bw with
+           | Ok (r2, c2) when "ok " ^ hx (value (wz ()) r2) ^ " " ^ hx c2 = t -> Some t
+           | _ -> Some "gen-bodies-differ"
          end else Some t
      | Panic _ -> Some "panic model"
      | Err _ -> Some "err model"
@@ -121,7 +128,11 @@ module Ringasis = struct
   let ksqr (la : int) (a : Zar.t) : string option =
     if not (small la la) then None else
     (match sqr_w (wz ()) d21 ts tk sq (words la a) with
-     | Ok r -> Some ("ok " ^ hx (value (wz ()) r))
+     | Ok r ->
+         let t = "ok " ^ hx (value (wz ()) r) in
+         (match ksqr_bodies_gen (wz ()) d21 (words la a) with
+          | Ok r2 when "ok " ^ hx (value (wz ()) r2) = t -> Some t
+          | _ -> Some "gen-bodies-differ")
      | Panic _ -> Some "panic model"
      | _ -> Some "outoffuel")
 end
